@@ -3,11 +3,11 @@ SPEC = {
         "ready": True,
         "sources": ["c08.cpp"], "lib": [],
         "technique": "exhaustive exponent sweeps (every exponent of float and double, every slot, graded relative exponents, boundary mantissas, sign patterns) of Vec2/3/4 length()/normalize family against sqrtl of the long-double sum of squares",
-        "level_text": "Every tuple of a stated finite alphabet - leading component +-m*2^e for every exponent e of the type (float -149..63, double -1074..511) in every slot, other components at relative exponents {0,-1,-2,-12,-24,-25,-53,-54,-inf}, mantissas {1,1+ulp,1.5,2-ulp}, sign patterns including -0; thorough adds the complete float exponent square and cube - is run through the real length(), length2(), normalize(), normalized() and their Exc/NonNull forms for Vec2/Vec3/Vec4 of float and double and compared with the definition evaluated in long double under a-priori ulp bounds; the alphabet straddles the 2*min switch-over of each of the three hand-written copies at every exponent.",
-        "level_note": "Bounded: mantissas are four boundary values per component, not all 2^23/2^52; relative exponents are graded, except in the thorough float square/cube where they are complete. Trusts x86-64 long double (64-bit significand) as the reference.",
+        "level_text": "Every tuple of a stated finite alphabet - leading component +-m*2^e for every exponent e of the type (float -149..63, double -1074..511) in every slot, other components at relative exponents {0,-1,-2,-12,-24,-25,-53,-54,-inf}, mantissas {1,1+ulp,1.5,2-ulp}, sign patterns including -0; thorough adds the complete float exponent square and cube - is run through the real length(), length2(), normalize(), normalized() and their Exc/NonNull forms for Vec2/Vec3/Vec4 of float and double and compared with the definition evaluated in long double under a-priori ulp bounds (length2() also against the exact sum of squares to N u, independently of dot(); 'never NaN or infinity' also for vectors with a subnormal norm, where 1/length overflows); the alphabet straddles the 2*min switch-over of each of the three hand-written copies at every exponent.",
+        "level_note": "Domain: every tuple whose floating-point sum of squares provably stays finite (exact sum*(1+N eps) <= max, or one non-zero component with x^2 <= max, or |c| <= sqrt(max)/2); the rest is enumerated but not judged. Bounded: mantissas are four boundary values per component, not all 2^23/2^52; relative exponents are graded, except in the thorough float square/cube where they are complete. Trusts x86-64 long double (64-bit significand) as the reference.",
         "deadline": {"quick": 200, "thorough": 840},
         "rule": "complete enumeration of the exponent-sweep alphabet on the real code; non-trivial = by a predicate on the input the vector takes the scaled (sum of squares < 2*min) path, "
-                "or has a square that underflows on the direct path, lies in the switch-over window, has a subnormal norm, is the zero vector, has a single non-zero component or a negative zero "
+                "or has a square that underflows on the direct path, lies in the switch-over window, has a subnormal norm, is the zero vector, has a norm below 1/max (the reciprocal of the norm overflows), has a component above sqrt(max)/2 with a finite sum of squares, has a single non-zero component or a negative zero "
                 "(classes counted per dimension; 'direct-path.generic' excluded)",
         "assumptions": ["long double has a 64-bit significand and a 15-bit exponent (x86-64)",
                         "harness compiled like the repository build: g++ -O2 -std=c++14, no -ffast-math, no FMA contraction"],
